@@ -137,7 +137,7 @@ package slog
 //@   requires [INV-tree] forall(m, map[string]*Entry, forall(k, implies(has(m, k), m[k] != nil)))
 //@   ensures [C10.tree] forall(m, map[string]*Entry, forall(k, implies(has(m, k), m[k] != nil)))
 //@   loop 1 invariant forall(m, map[string]*Entry, forall(k, implies(has(m, k), m[k] != nil)))
-//@   at call (*Entry).forEachLogger assert [C10.each-child] (callee.lvl == lvl + 1 || lvl == 9223372036854775807) && callee.cb == cb
+//@   at call (*Entry).forEachLogger assert [C10.each-child] (callee.lvl == old(lvl) + 1 || old(lvl) == 9223372036854775807) && callee.cb == cb
 
 // The package's default level: Warn in a production process (no tracing, no debugger, not under go
 // test, no debug build, no debug mode, DEBUG unset), until SetLevel changes it.
